@@ -43,6 +43,7 @@ if confirmed:
             det[p] = {'exit': rc, 'lines': [l for l in out.split('\n') if l.startswith(('VIOLATION', 'UNDECIDED', 'OK', 'KNOWN'))][:12]}
     finally:
         sh('git -C /repo checkout -- .')
+        sh('git -C /verif checkout -- evidence')      # evidence files are only ever committed from runs on the unchanged tree
 res['checks'] = det
 res['detected'] = bool(det.get(prop, {}).get('exit') == 1)
 meta['evaluation'] = res
